@@ -132,7 +132,7 @@ theorem primsOK_svAt (P : Params) (h : Nat) : PrimsOK P h (svAt h) where
     (guarded_keep2 (·.syncVersions) (·.synced) (svAt_keep h) (fun _ => rfl) (fun _ => rfl))
   insertRate _ _ := guarded_keep2 (·.syncVersions) (·.synced) (svAt_keep h) (fun _ => rfl) (fun _ => rfl)
   insertHistBatch _ := guarded_keep2 (·.syncVersions) (·.synced) (svAt_keep h) (fun _ => rfl) (fun _ => rfl)
-  insertHistTx _ := guarded_keep2 (·.syncVersions) (·.synced) (svAt_keep h) (fun _ => rfl) (fun _ => rfl)
+  insertHistTx _ _ := guarded_keep2 (·.syncVersions) (·.synced) (svAt_keep h) (fun _ => rfl) (fun _ => rfl)
   insertLookup _ := guarded_keep2 (·.syncVersions) (·.synced) (svAt_keep h) (fun s => by split <;> rfl) (fun s => by split <;> rfl)
   setExecuted _ _ := guarded_keep2 (·.syncVersions) (·.synced) (svAt_keep h) (fun _ => rfl) (fun _ => rfl)
   setConvertedAmount _ _ _ := guarded_keep2 (·.syncVersions) (·.synced) (svAt_keep h) (fun _ => rfl) (fun _ => rfl)
